@@ -7068,7 +7068,10 @@ fn stream_yaml_block_scalar_quoted<Out: core::fmt::Write>(
 fn chomping_indicator(decoded: &str) -> ChompingIndicator {
     match decoded.strip_suffix('\n') {
         None => ChompingIndicator::Strip,
-        Some(rest) if !rest.ends_with('\n') => ChompingIndicator::Clip,
+        // Clip keeps the final line break only of NON-EMPTY content: a value
+        // that is nothing but one line break needs keep (`|+` and one empty
+        // line), or it reads back as the empty string.
+        Some(rest) if !rest.is_empty() && !rest.ends_with('\n') => ChompingIndicator::Clip,
         Some(_) => ChompingIndicator::Keep,
     }
 }
